@@ -338,6 +338,26 @@ def createClient (env : Env) (chainId trusting : Nat) (h0 : Header) : Outcome St
   if h0.rev = 0 ∧ h0.number = 0 then .err "create-height-zero"      -- Height.IsZero()
   else if !validateBasic h0 then .err "create-basic" else .ok (initState env chainId trusting h0)
 
+/-! ### upgrade / toggle proposals -/
+
+/-- `UpgradeClient`: `ClientState.UpgradeState` writes the header-index and root-main entries of the NEW head under the HEADER's
+    height (the same two writes as `update`), the keeper installs the new client state and the proposal's consensus state at the
+    new head's height.  Everything already in the store stays.  `consHeight` is the redundant `ConsensusState.Height` of the
+    proposal (possibly unset): the code ignores it. -/
+def upgradeState (env : Env) (s : State) (chainId trusting : Nat) (h : Header) (_consHeight : Option (Nat × Nat)) : State :=
+  let s1 := store env s h
+  { s1 with head := h, chainId := chainId, trusting := trusting, cons := aset s1.cons h.number { time := h.time, root := h.root } }
+
+/-- UpgradeClientProposal: `ValidateBasic` (client state `Validate`; the ETH consensus state validates nothing) ; handler -/
+def upgradeClient (env : Env) (s : State) (chainId trusting : Nat) (h : Header) (consHeight : Option (Nat × Nat)) : Outcome State :=
+  if h.rev = 0 ∧ h.number = 0 then .err "upgrade-height-zero"
+  else if !validateBasic h then .err "upgrade-basic" else .ok (upgradeState env s chainId trusting h consHeight)
+
+/-- ToggleClientProposal to an ETH client: needs an existing client of ANOTHER type; its store is cleared, then `Initialize`
+    and the keeper writes exactly as in `CreateClient` -/
+def toggleClient (env : Env) (otherTypePresent : Bool) (chainId trusting : Nat) (h : Header) (_consHeight : Option (Nat × Nat)) : Outcome State :=
+  if !otherTypePresent then .err "toggle-no-other-client" else createClient env chainId trusting h
+
 /-! ### several clients in one chain, restart, discarded executions -/
 
 /-- two ETH clients of one chain (client stores are prefixed by the chain name; `false` = first, `true` = second) -/
